@@ -518,6 +518,8 @@ def segment_paths(ctx: Ctx):
                 return True
             if x[0] == "op" and isinstance(x[1], str) and x[1].startswith("segment_"):
                 return True
+            if x[0] == "glob" and isinstance(x[1], str) and x[1].startswith("jax.ops.segment_"):
+                return True  # the segment operation as a function value (bound with functools.partial, then called)
         return False
 
     for q, pname in SEGMENT_REDUCERS.items():
